@@ -83,6 +83,18 @@ func stressMutators(rounds, workers int, seed uint64) []string {
 		}
 		var token int64
 		var pushed, removed sync.Map
+		// every fifth round starts from a long queue (40 elements): code paths that
+		// depend on the length are exercised under contention too
+		longQueue := round%5 == 3 && capacity == 0
+		if longQueue {
+			for k := 0; k < 40; k++ {
+				n := int(atomic.AddInt64(&token, 1))
+				if !(rejecting && n%5 == 0) {
+					pushed.Store(n, true)
+				}
+				s.Push(n)
+			}
+		}
 		var wg sync.WaitGroup
 		for w := 0; w < workers; w++ {
 			wg.Add(1)
@@ -106,8 +118,22 @@ func stressMutators(rounds, workers int, seed uint64) []string {
 						report(fmt.Sprintf("round %d: fabricated element %T", round, v))
 					}
 				}
-				for i := 0; i < 12; i++ {
-					switch r.Intn(9) {
+				nops := 12
+				if longQueue {
+					nops = 3000 // a long, busy queue: one consumer, the others produce
+				}
+				for i := 0; i < nops; i++ {
+					op := r.Intn(9)
+					if longQueue {
+						op = 0
+						if w == 0 {
+							op = 2
+							if s.Len() < 14 {
+								continue
+							}
+						}
+					}
+					switch op {
 					case 0, 1:
 						n := int(atomic.AddInt64(&token, 1))
 						if !(rejecting && n%5 == 0) {
@@ -218,8 +244,12 @@ func stressQueries(rounds, workers int, seed uint64) []string {
 		if round%2 == 0 {
 			s.SetMutex()
 		}
+		if round%4 < 2 {
+			s.SetLessFunc() // the package's own ordering, chosen explicitly
+		}
 		type answer struct {
 			str, kind   string
+			less        string
 			l, c, a     int
 			valid, nest bool
 			um          string
@@ -245,7 +275,11 @@ func stressQueries(rounds, workers int, seed uint64) []string {
 			_, _ = s.Front()
 			_, _ = s.Back()
 			an.eq = s.IsEqual(s) == nil
-			_ = s.Less(0, 1)
+			for i := 0; i < s.Len() && i < 4; i++ {
+				for j := 0; j < s.Len() && j < 4; j++ {
+					an.less += fmt.Sprint(s.Less(i, j))
+				}
+			}
 			_ = s.IsEmpty()
 			_ = s.IsFIFO()
 			_ = s.IsParen()
